@@ -6,7 +6,7 @@
    PreprocessDeclarationsPrelude, GetAllComputedStyles after the repairs
    5fe51d0, 44a9070, 5f1d923); specification: Css/CascadeSpec.v.
    Check/C03.v ties the model to /repo on every run. *)
-From Verif Require Import Css.Cascade Css.CascadeSpec Css.CascadeProofs Css.CascadeImport Css.CascadeImportProofs.
+From Verif Require Import Css.Cascade Css.CascadeSpec Css.CascadeProofs Css.CascadeImport Css.CascadeImportProofs Css.CascadeMore.
 From Coq Require Import List NArith Bool.
 Import ListNotations.
 Open Scope N_scope.
@@ -299,3 +299,35 @@ Example C03_import_twice_in_action :
   used (expand_doc ex_udoc) 0 [mkNode 1 None [] [] []] 0 = Some 31 /\
   length (flatten_env 1 ex_env (UImport [] 1 (UImport [] 2 (UImport [] 1 UNil)))) = 5%nat.
 Proof. vm_compute. repeat split. Qed.
+
+(* 9. proof-extension round (Css/CascadeMore.v): structural facts about the
+   cascade order, for lists of any length.
+   (a) the winner depends only on the set of (order key, occurrence) pairs, not
+       on their position in the list *)
+Theorem C03_winner_same_elements : forall l l' p w,
+  (forall x, In x l <-> In x l') -> is_winner l p w -> is_winner l' p w.
+Proof. exact is_winner_same_elements. Qed.
+Print Assumptions C03_winner_same_elements.
+
+Theorem C03_winner_permutation_invariant : forall l l' p w,
+  Permutation.Permutation l l' -> is_winner l p w -> is_winner l' p w.
+Proof. exact is_winner_permutation. Qed.
+Print Assumptions C03_winner_permutation_invariant.
+
+(* (b) monotonicity: a declaration below the winner changes nothing, one above
+       it (for the same property) becomes the winner *)
+Theorem C03_winner_add_lower : forall l p w x,
+  is_winner l p w -> occ_lt x w = true -> is_winner (x :: l) p w.
+Proof. exact is_winner_add_lower. Qed.
+Print Assumptions C03_winner_add_lower.
+
+Theorem C03_winner_add_higher : forall l p w x,
+  is_winner l p w -> o_prop (snd x) = p -> occ_lt w x = true -> is_winner (x :: l) p x.
+Proof. exact is_winner_add_higher. Qed.
+Print Assumptions C03_winner_add_higher.
+
+(* (c) independence of properties *)
+Theorem C03_winner_other_property_inert : forall l p w x,
+  o_prop (snd x) <> p -> (is_winner (x :: l) p w <-> is_winner l p w).
+Proof. exact is_winner_other_property. Qed.
+Print Assumptions C03_winner_other_property_inert.
